@@ -176,7 +176,28 @@ pub fn gen_payload(l: &Layout, f: &Value, rng: &mut Rng, depth: usize) -> Vec<u8
             let two = |n: u64| -> u8 { ((n / 10) * 16 + n % 10) as u8 };
             let (y, m, d) = (rng.range(0, 9999), rng.range(1, 12), rng.range(1, 28));
             let date = vec![0x1f, 0x0e, 4, two(y / 100), two(y % 100), two(m), two(d)];
-            let time = vec![0x1f, 0x0f, 3, two(rng.range(0, 23)), two(rng.range(0, 59)), two(rng.range(0, 59))];
+            let mut time = vec![0x1f, 0x0f, 3, two(rng.range(0, 23)), two(rng.range(0, 59)), two(rng.range(0, 59))];
+            let mut date = date;
+            if BCD_EDGE.with(|e| e.get()) && rng.chance(1, 2) {
+                // wrap witnesses: the leading component (year / hour) is a valid value plus a multiple of 2^8, 2^16, 2^31, 2^32 or 2^64,
+                // the rest of the digits are valid - a decoder that narrows the number without a check reads a valid date or time
+                let wraps: [u128; 7] = [1 << 8, 1 << 16, 1 << 31, 1 << 32, 3 << 32, 1 << 63, 1 << 64];
+                let lead_ok: u128 = if rng.chance(1, 2) { rng.range(0, 23) as u128 } else { rng.range(1, 9999) as u128 };
+                let lead = *rng.pick(&wraps) * rng.range(1, 3) as u128 + lead_ok;
+                let tail = format!("{:02}{:02}", rng.range(1, 12), rng.range(1, 28));
+                let mut digits = format!("{}{}", lead, tail);
+                if digits.len() % 2 == 1 {
+                    digits.insert(0, '0');
+                }
+                let bcd: Vec<u8> = digits.as_bytes().chunks(2).map(|c| (c[0] - b'0') * 16 + (c[1] - b'0')).collect();
+                let mut tlv = vec![0x1f, if rng.chance(1, 2) { 0x0e } else { 0x0f }, bcd.len() as u8];
+                tlv.extend(bcd);
+                if tlv[1] == 0x0e {
+                    date = tlv;
+                } else {
+                    time = tlv;
+                }
+            }
             if rng.chance(1, 4) {
                 [time, date].concat()
             } else {
